@@ -9,8 +9,11 @@ package dh
 import (
 	"fmt"
 	"go/ast"
+	"go/constant"
+	"go/importer"
 	"go/parser"
 	"go/token"
+	"go/types"
 	"net/netip"
 	"os"
 	"path/filepath"
@@ -137,27 +140,74 @@ func (p *srcPkg) constVal(name string) (int64, bool) {
 	return p.eval(d, p.iota[name], 0)
 }
 
-// leaseDuration: the constant assigned to a field named Duration inside newSubnet (the default lease time).
-func (p *srcPkg) leaseDuration() (int64, bool) {
-	f := p.funcs["newSubnet"]
-	if f == nil || f.Body == nil {
+// leaseDuration: the default lease time = the one constant value assigned to a field named Duration anywhere
+// in the package, folded by go/types (named constants, time.Hour etc. resolved by the type checker; imports
+// outside the standard library are stubbed, their errors ignored).  Independent of function names; zero,
+// several different values or none => unresolved.
+type stubImporter struct{ std types.Importer }
+
+func (i stubImporter) Import(path string) (*types.Package, error) {
+	if !strings.Contains(path, ".") { // standard library, from GOROOT source
+		if p, err := i.std.Import(path); err == nil {
+			return p, nil
+		}
+	}
+	name := path[strings.LastIndex(path, "/")+1:]
+	p := types.NewPackage(path, name)
+	p.MarkComplete()
+	return p, nil
+}
+
+func leaseDurationFolded(dir string) (int64, bool) {
+	fset := token.NewFileSet()
+	names, _ := filepath.Glob(filepath.Join(dir, "*.go"))
+	var files []*ast.File
+	for _, fn := range names {
+		if strings.HasSuffix(fn, "_test.go") {
+			continue
+		}
+		src, err := os.ReadFile(fn)
+		if err != nil || strings.Contains(string(src[:min(len(src), 200)]), "go:build verif") {
+			continue
+		}
+		if f, err := parser.ParseFile(fset, fn, src, 0); err == nil {
+			files = append(files, f)
+		}
+	}
+	info := &types.Info{Types: map[ast.Expr]types.TypeAndValue{}}
+	conf := types.Config{Importer: stubImporter{importer.ForCompiler(fset, "source", nil)}, Error: func(error) {}}
+	conf.Check("dhcp4_spoofer", fset, files, info) // errors from the stubbed imports are expected
+	vals := map[int64]bool{}
+	for _, f := range files {
+		ast.Inspect(f, func(n ast.Node) bool {
+			as, ok := n.(*ast.AssignStmt)
+			if !ok || len(as.Lhs) != 1 || len(as.Rhs) != 1 {
+				return true
+			}
+			if sel, ok := as.Lhs[0].(*ast.SelectorExpr); ok && sel.Sel.Name == "Duration" {
+				if tv, ok := info.Types[as.Rhs[0]]; ok && tv.Value != nil {
+					if v, exact := constant.Int64Val(constant.ToInt(tv.Value)); exact && v != 0 {
+						vals[v/1e9] = true
+					}
+				}
+			}
+			return true
+		})
+	}
+	if len(vals) != 1 {
 		return 0, false
 	}
-	var found int64
-	ok := false
-	ast.Inspect(f.Body, func(n ast.Node) bool {
-		as, isAs := n.(*ast.AssignStmt)
-		if !isAs || len(as.Lhs) != 1 || len(as.Rhs) != 1 {
-			return true
-		}
-		if sel, isSel := as.Lhs[0].(*ast.SelectorExpr); isSel && sel.Sel.Name == "Duration" {
-			if v, good := p.eval(as.Rhs[0], 0, 0); good {
-				found, ok = v/1e9, true
-			}
-		}
-		return true
-	})
-	return found, ok
+	for v := range vals {
+		return v, true
+	}
+	return 0, false
+}
+
+func min(a, b int) int {
+	if a < b {
+		return a
+	}
+	return b
 }
 
 var srcCache map[string]string
@@ -187,7 +237,7 @@ func srcValues() map[string]string {
 			out[n] = fmt.Sprint(v)
 		}
 	}
-	if v, ok := dh.leaseDuration(); ok {
+	if v, ok := leaseDurationFolded(filepath.Join(repo, "handlers", "dhcp4_spoofer")); ok {
 		out["lease_duration_seconds"] = fmt.Sprint(v)
 	}
 	if e, ok := core.vars["DNSv4CloudFlareFamily1"]; ok {
